@@ -1,6 +1,7 @@
 import PewProofs.FastParse
 import PewProofs.FastParsePos
 import PewProofs.FastParseText
+import PewProofs.FastParseHist
 
 /-! # C17 — property theorems (statements only depend on `PewModel.FastParse`) -/
 namespace Pew.FastParse
@@ -282,5 +283,206 @@ theorem fast_rejects_exponent :
   have := fast_eq_xml_no_callback clsAny exampleDoc (by decide +kernel) _
     (show ((render clsAny exampleDoc).map (fun l => (l, 1))).map Prod.fst = _ by simp [List.map_map, Function.comp_def])
   rwa [plain_text_is_decoded_text exampleDoc (by decide +kernel)] at this
+
+/-! ## the object a callback hands back -/
+
+/-- the mechanism's test (`if not callback(…)`, the truth value of the object) against the property's
+words: an object that IS False — `False`, `numpy.False_`, the integer `0` — is falsy, so the import is
+aborted; an object that IS True — `True`, `numpy.True_`, `1` — is truthy, so it is not; no object is both -/
+theorem callback_value_scope (v : PyVal) :
+    (v.isFalse = true → v.truthy = false) ∧ (v.isTrue = true → v.truthy = true) ∧
+    ¬(v.isFalse = true ∧ v.isTrue = true) :=
+  ⟨isFalse_falsy v, isTrue_truthy v, not_isFalse_and_isTrue v⟩
+
+example : (PyVal.npBool false).isFalse = true ∧ (PyVal.int 0).isFalse = true ∧ (PyVal.bool false).isFalse = true ∧
+    PyVal.none.isFalse = false ∧ PyVal.none.isTrue = false ∧ PyVal.none.truthy = false ∧
+    (PyVal.other true).isTrue = false ∧ (PyVal.int 2).isTrue = false ∧ (PyVal.int 2).truthy = true := by decide
+
+/-- ANY Python callback `f` (position ↦ returned object), ANY list of lines: what the parser does is an
+outcome the property allows for the objects the callback returned at its invocations (`outcomeOk`: every
+invocation before the last did not return False, and an aborting invocation did not return True).
+Either the import ran to the end and no invocation returned a falsy object, or it raised the
+warning-type exception (never a model) at the first falsy object, which was the last invocation -/
+theorem callback_values_outcome (f : Nat → PyVal) (ls : List (Line × Nat)) :
+    ((run (cbOf f) ls).aborted = false ∧ firstFalsy ((run (cbOf f) ls).calls.map f) = none ∧
+      outcomeOk ((run (cbOf f) ls).calls.map f) none = true) ∨
+    (fastParse (cbOf f) ls = .error .aborted ∧
+      ∃ pre p, (run (cbOf f) ls).calls = pre ++ [p] ∧
+        firstFalsy ((run (cbOf f) ls).calls.map f) = some pre.length ∧
+        outcomeOk ((run (cbOf f) ls).calls.map f) (some pre.length) = true) := by
+  rcases callback_false_aborts (cbOf f) ls with ⟨ha, hall⟩ | ⟨hf, pre, p, hc, hp, hpre⟩
+  · left
+    have hnone : firstFalsy ((run (cbOf f) ls).calls.map f) = none := by
+      unfold firstFalsy
+      rw [List.findIdx?_eq_none_iff]
+      intro v hv
+      rw [List.mem_map] at hv
+      obtain ⟨q, hq, rfl⟩ := hv
+      have := hall q hq
+      simp only [cbOf] at this
+      simp [this]
+    refine ⟨ha, hnone, ?_⟩
+    rw [← hnone]; exact outcomeOk_firstFalsy _
+  · right
+    refine ⟨hf, pre, p, hc, ?_⟩
+    have hsome : firstFalsy ((run (cbOf f) ls).calls.map f) = some pre.length := by
+      unfold firstFalsy
+      rw [hc, List.map_append, List.findIdx?_append]
+      have h1 : (pre.map f).findIdx? (fun v => !v.truthy) = none := by
+        rw [List.findIdx?_eq_none_iff]
+        intro v hv
+        rw [List.mem_map] at hv
+        obtain ⟨q, hq, rfl⟩ := hv
+        have := hpre q hq
+        simp only [cbOf] at this
+        simp [this]
+      simp only [cbOf] at hp
+      simp [h1, hp]
+    refine ⟨hsome, ?_⟩
+    rw [← hsome]; exact outcomeOk_firstFalsy _
+
+/-- when every object the callback returns is False or True (`bool`, `numpy.bool_`, `0`/`1`) the property
+leaves exactly one outcome, the mechanism's: abort at the first False -/
+theorem callback_outcome_determined (vals : List PyVal) (hd : ∀ v ∈ vals, v.isFalse = true ∨ v.isTrue = true)
+    (a : Option Nat) (h : outcomeOk vals a = true) : a = firstFalsy vals :=
+  outcomeOk_determined vals hd a h
+
+/-- a callback comparing the position with a NumPy integer: `numpy.True_` twice, then `numpy.False_` —
+the only allowed outcome is an abort at the third invocation; with `None` there both are allowed -/
+example : okOutcomes [.npBool true, .npBool true, .npBool false, .npBool false] = [some 2] := by decide
+example : okOutcomes [.int 1, .none, .bool true] = [none, some 1] := by decide
+example : fastParse (cbOf (fun p => .npBool (p < 62))) exampleLines = .error .aborted := by decide +kernel
+
+/-! ## histories -/
+
+/-- ANY document, ANY history of imports and caller edits: what the k-th import returns is what that
+import returns on its own — neither the earlier imports (through either parser, aborted or not, with
+whatever binary) nor the edits the caller made to the objects it holds have any influence -/
+theorem history_imports_independent (d : Doc) (ls : List (Line × Nat)) (ops : List Op) :
+    (runOps d ls ops).results = (importsOf ops).map (importOnce d ls) := by
+  unfold runOps
+  rw [results_foldl]; rfl
+
+/-- documents of the layout: in every history every import — fast parser with or without a callback
+that never returned False, or XML parser — returns the model the XML parser builds from the document,
+attached to the binary given to THAT import -/
+theorem history_every_import_is_the_document (cls : String → Bool) (d : Doc) (h : Layout cls d)
+    (ls : List (Line × Nat)) (hls : ls.map Prod.fst = render cls d) (ops : List Op)
+    (hcb : ∀ i ∈ importsOf ops, ∀ cb, i.parser = .fast (some cb) → ∀ p ∈ (run cb ls).calls, cb p = true) :
+    ∃ m, xmlView (xmlDoc d) = some m ∧
+      (runOps d ls ops).results = (importsOf ops).map (fun i => .ok { model := m, bin := i.bin }) := by
+  obtain ⟨m, _, hx⟩ := fast_eq_xml_no_callback cls d h ls hls
+  refine ⟨m, hx, ?_⟩
+  rw [history_imports_independent]
+  apply List.map_congr_left
+  intro i hi
+  unfold importOnce
+  cases hp : i.parser with
+  | xml => simp [hx]
+  | fast cb =>
+    cases cb with
+    | none =>
+      obtain ⟨m', h1, h2⟩ := fast_eq_xml_no_callback cls d h ls hls
+      rw [hx] at h2; cases h2
+      simp [h1]
+    | some cb =>
+      obtain ⟨m', h1, h2⟩ := fast_eq_xml cls d h cb ls hls (hcb i hi cb hp)
+      rw [hx] at h2; cases h2
+      simp [h1]
+
+/-- … and therefore the images of every returned object are those of the document's model with the
+binary of its own import: two imports given different binaries extract from different binaries, two
+imports given the same binary (one per parser, say) extract identical images -/
+theorem history_images (cls : String → Bool) (d : Doc) (h : Layout cls d)
+    (ls : List (Line × Nat)) (hls : ls.map Prod.fst = render cls d) (ops : List Op)
+    (hcb : ∀ i ∈ importsOf ops, ∀ cb, i.parser = .fast (some cb) → ∀ p ∈ (run cb ls).calls, cb p = true)
+    (Bs : Nat → Bin) (masses : List Rat) (w : Pew.Imzml.Width) :
+    ∃ m, xmlView (xmlDoc d) = some m ∧
+      (runOps d ls ops).results.map (fun r => match r with | .ok o => some (objImages Bs masses w o) | _ => none)
+        = (importsOf ops).map (fun i => some (objImages Bs masses w { model := m, bin := i.bin })) := by
+  obtain ⟨m, hx, hr⟩ := history_every_import_is_the_document cls d h ls hls ops hcb
+  refine ⟨m, hx, ?_⟩
+  rw [hr, List.map_map]
+  rfl
+
+/-- a history on the example document: fast import with the first binary, the caller removes the image
+size and a spectrum, then a fast import with the second binary, then the XML parser, then an import
+aborted by its callback — three objects of the unedited model, with binaries 0, 1, 1 -/
+def exampleOps : List Op :=
+  [.imp { parser := .fast none, bin := 0 }, .edit 0 (.setSize none), .edit 0 (.dropSpectrum 1),
+   .imp { parser := .fast none, bin := 1 }, .edit 1 .clearSpectra, .imp { parser := .xml, bin := 1 },
+   .imp { parser := .fast (some (fun p => p != 62)), bin := 0 }]
+
+example : (runOps exampleDoc exampleLines exampleOps).results.map
+      (fun r => match r with | .ok o => some (o.bin, o.model.scan.size, o.model.spectra.length) | _ => none)
+    = [some (0, some ("2", "1"), 2), some (1, some ("2", "1"), 2), some (1, some ("2", "1"), 2), none] := by
+  decide +kernel
+
+example : (runOps exampleDoc exampleLines exampleOps).heap.map (fun o => (o.bin, o.model.scan.size, o.model.spectra.length))
+    = [(0, none, 1), (1, some ("2", "1"), 0), (1, some ("2", "1"), 2)] := by
+  decide +kernel
+
+/-- every line of a file is at least one byte long (its line end), and then the positions handed to the
+callback are STRICTLY increasing — for any list of lines and any callback.  So no two invocations see the
+same position, and a callback that answers by counting its invocations (what a progress dialog or the
+harness does) is a function of the position, which is how the state machine takes it (`cb : Nat → Bool`) -/
+theorem callback_positions_strict (cb : Nat → Bool) (ls : List (Line × Nat)) (hlen : ∀ ln ∈ ls, 0 < ln.2) :
+    (run cb ls).calls.Pairwise (· < ·) :=
+  (runS_posInvS cb ls St.init hlen ⟨by simp [St.init], by intro p hp; simp [St.init] at hp⟩).1
+
+example : ∀ ln ∈ exampleLines, 0 < ln.2 := by decide +kernel
+
+/-! ## number conversions -/
+
+/-- `int()` and `float()` read a text of ASCII digits as the same number: where the model converts a
+position or size with `pyNat`, the exact decimal value `float()` rounds (`pyFloat = nearestF64 ∘
+decimalValue`) is that natural number — `052676` is 52676 for both -/
+theorem decimalValue_of_digits (s : String) (n : Nat) (h : pyNat s = some n) : decimalValue s = some (n : Rat) :=
+  decimalValue_of_digits' s n h
+
+example : pyNat "052676" = some 52676 ∧ pyFloat "052676" = some 52676 ∧ pyFloat "1.500000e+06" = some 1500000 ∧
+    pyFloat " -2.5E-3 " = some (-5764607523034235 / 2305843009213693952) ∧ pyFloat "inf" = none ∧ pyNat "+5" = none := by
+  decide +kernel
+
+/-! ## text lines -/
+
+/-- the state machine does not tell the inert lines apart: any two lists of lines that agree up to
+`Line.norm` (an unknown opening or closing tag is as good as any other line without an accession) and in
+their byte lengths drive it through the same states, callback invocations included.  The driver
+tokenises the TEXT of every generated file with `tokenise` (the code's `startswith` / `find` / regular
+expression tests on characters), checks that the result agrees with `render cls d` up to `Line.norm`, and
+by this theorem `fastParse` on the tokenised text is `fastParse` on the rendered document, the object of
+`fast_eq_xml` -/
+theorem tokens_agree_modulo_inert_lines (cb : Nat → Bool) (ls ls' : List (Line × Nat))
+    (h : ls.map (fun ln => (ln.1.norm, ln.2)) = ls'.map (fun ln => (ln.1.norm, ln.2))) :
+    run cb ls = run cb ls' ∧ fastParse cb ls = fastParse cb ls' := by
+  have e : run cb ls = run cb ls' := runS_norm cb ls ls' St.init h
+  refine ⟨e, ?_⟩
+  unfold fastParse
+  rw [e]
+
+/-- the nine cvParam line styles the generator writes, a reference, a group, the two lists whose opening
+tag the `<spectrum` / `<referenceableParamGroup` prefix tests also accept, as the code's string tests
+classify them -/
+example : tokenise clsAnyC "   <cvParam cvRef=\"IMS\" accession=\"IMS:1000050\" name=\"position x\" value=\"3\"/>  \r"
+    = some (.cv "IMS:1000050" (some "3")) := by decide +kernel
+example : tokenise clsAnyC "<cvParam accession=\"MS:1000285\" cvRef=\"MS\" name=\"p\" unitAccession=\"MS:1000040\" unitCvRef=\"MS\" unitName=\"m/z\" value=\"1.500000e+06\"/>"
+    = some (.cv "MS:1000285" (some "1.500000e+06")) := by decide +kernel
+example : tokenise clsAnyC "<cvParam cvRef=\"IMS\" accession=\"IMS:1000046\" name=\"n\" value=\"30\" unitCvRef=\"UO\" unitAccession=\"UO:0000017\" unitName=\"micrometer\"/>"
+    = some (.cv "IMS:1000046" (some "30")) := by decide +kernel
+example : tokenise clsAnyC "<cvParam unitCvRef=\"UO\" unitAccession=\"UO:0000017\" unitName=\"micrometer\" cvRef=\"IMS\" accession=\"IMS:1000046\" name=\"n\" value=\"2.5E+1\"/>"
+    = some (.cv "IMS:1000046" (some "2.5E+1")) := by decide +kernel
+example : tokenise clsAnyC "<cvParam\tcvRef=\"MS\"\taccession=\"MS:1000285\"\t\tname=\"tic\"\tvalue=\"-1.5e+06\"\t/>"
+    = some (.cv "MS:1000285" (some "-1.5e+06")) := by decide +kernel
+example : tokenise clsWordC "<cvParam\tcvRef=\"MS\"\taccession=\"MS:1000285\"\t\tname=\"tic\"\tvalue=\"-1.5e+06\"\t/>"
+    = some (.cv "MS:1000285" none) := by decide +kernel
+example : tokenise clsAnyC "<cvParam cvRef=\"MS\" accession=\"MS:1000514\" name=\"array\" value=\"\"></cvParam>"
+    = some (.cv "MS:1000514" none) := by decide +kernel
+example : tokenise clsAnyC "<referenceableParamGroupRef ref=\"intensities\"/>" = some (.ref "intensities") := by decide +kernel
+example : tokenise clsAnyC "  <referenceableParamGroup id=\"mzArray\">" = some (.opn .group "mzArray") := by decide +kernel
+example : tokenise clsAnyC "<referenceableParamGroupList count=\"3\">" = some (.opn .groupList "") := by decide +kernel
+example : tokenise clsAnyC "<spectrumList count=\"2\" defaultDataProcessingRef=\"dp0\">" = some (.opn .spectrumList "") := by decide +kernel
+example : tokenise clsAnyC "<userParam name=\"accession\" value=\"2975.78\"/>" = some .misc := by decide +kernel
+example : (tokenise clsAnyC "<scanList count=\"1\">").map Line.norm = some (Line.norm (.opn .other "")) := by decide +kernel
 
 end Pew.FastParse
